@@ -10,7 +10,35 @@ import (
 )
 
 // Dump prints the facts rules are written against, for one function.
-func Dump(w io.Writer, fset *token.FileSet, fn *ssa.Function) {
+// Brief: omit logging/event/formatting calls and error returns, truncate lines (set by the CLI).
+var Brief = 0
+
+var briefSkip = []string{"fmt.", "sdk.NewAttribute", "sdk.NewEvent", "sdk.EventManagerI", "sdk.Context.EventManager", "sdk.Context.Logger", "log.Logger", "telemetry.", "strconv.", "len(", "errors.New", "errorsmod."}
+
+func brief(line string) (string, bool) {
+	if Brief == 0 {
+		return line, true
+	}
+	t := strings.TrimSpace(line)
+	if i := strings.Index(t, " "); i > 0 {
+		t = strings.TrimSpace(t[i:])
+	}
+	for _, p := range briefSkip {
+		if strings.HasPrefix(t, "call "+p) {
+			return "", false
+		}
+	}
+	if strings.HasPrefix(t, "return[err]") || strings.HasPrefix(t, "store idx(&varargs") || strings.HasPrefix(t, "store &") && !strings.Contains(t[:min(len(t), 40)], ".") {
+		return "", false
+	}
+	if len(line) > Brief {
+		line = line[:Brief] + "…\n"
+	}
+	return line, true
+}
+
+func Dump(w0 io.Writer, fset *token.FileSet, fn *ssa.Function) {
+	w := &briefWriter{w: w0}
 	f := NewFunc(fn)
 	fmt.Fprintf(w, "== %s   (%s)\n", FuncName(fn), fset.Position(fn.Pos()))
 	for _, b := range fn.Blocks {
@@ -48,8 +76,17 @@ func Dump(w io.Writer, fset *token.FileSet, fn *ssa.Function) {
 		}
 	}
 	for _, an := range fn.AnonFuncs {
-		Dump(w, fset, an)
+		Dump(w0, fset, an)
 	}
+}
+
+type briefWriter struct{ w io.Writer }
+
+func (b *briefWriter) Write(p []byte) (int, error) {
+	if line, ok := brief(string(p)); ok {
+		b.w.Write([]byte(line))
+	}
+	return len(p), nil
 }
 
 func (f *Func) addrTerm(a ssa.Value) string {
